@@ -99,6 +99,32 @@ func lemmaEqualityNegation(a int64, b int64) {}
 @*/
 func lemmaLiteralRoundTrip(op pAst.InfixOperator, n int64, c int64) {}
 
+// Multiplication as a counting loop: `a * n` becomes
+// `{ let lhs_init = a; let mul_res = 0; let mul_count = 0; while mul_count < n { mul_res += lhs_init; mul_count += 1; } mul_res }`.
+// vCountingLoop is the value such a loop leaves in the accumulator; the lemma
+// (induction on n - cnt) shows that started from (0, 0) with step 1 it is
+// a * n for 0 <= n (the property's premise: small non-negative right operands).
+
+func vCountingLoop(a int64, n int64, res int64, cnt int64) int64 {
+	if cnt < n {
+		return vCountingLoop(a, n, res+a, cnt+1)
+	}
+	return res
+}
+
+func lemmaCountingLoop(a int64, n int64, cnt int64) {
+	if cnt < n {
+		lemmaCountingLoop(a, n, cnt+1)
+	}
+}
+
+/*@ func lemmaCountingLoop
+    serves C20
+    requires 0 <= cnt && cnt <= n && n <= 1048576 && -1099511627776 <= a && a <= 1099511627776
+    ensures @loop-computes-product vCountingLoop(a, n, a*cnt, cnt) == a*n
+    decreases n - cnt
+@*/
+
 // The transformer's tables are the ones the equations are proved for.
 
 /*@ func (self *Transformer) infixExpr
@@ -106,6 +132,8 @@ func lemmaLiteralRoundTrip(op pAst.InfixOperator, n int64, c int64) {}
     assume-safety
     assumepre Expression
     ensures @original-kept len(result) >= 1
+    assert @counting-loop-accumulator-starts-at-zero before variants = append(variants, ast.AnalyzedBlockExpression{ :: resultInitExpr.(ast.AnalyzedIntLiteralExpression).Value == 0
+    assert @counting-loop-shape after variants = append(variants, ast.AnalyzedBlockExpression{ :: len(variants[len(variants)-1].(ast.AnalyzedBlockExpression).Block.Statements) == 4 && variants[len(variants)-1].(ast.AnalyzedBlockExpression).Block.Statements[2].(ast.AnalyzedLetStatement).Expression.(ast.AnalyzedIntLiteralExpression).Value == 0 && variants[len(variants)-1].(ast.AnalyzedBlockExpression).Block.Statements[3].(ast.AnalyzedWhileStatement).Condition.(ast.AnalyzedInfixExpression).Operator == pAst.LessThanInfixOperator && len(variants[len(variants)-1].(ast.AnalyzedBlockExpression).Block.Statements[3].(ast.AnalyzedWhileStatement).Body.Statements) == 2 && variants[len(variants)-1].(ast.AnalyzedBlockExpression).Block.Statements[3].(ast.AnalyzedWhileStatement).Body.Statements[0].(ast.AnalyzedExpressionStatement).Expression.(ast.AnalyzedAssignExpression).Operator == pAst.PlusAssignOperatorKind && variants[len(variants)-1].(ast.AnalyzedBlockExpression).Block.Statements[3].(ast.AnalyzedWhileStatement).Body.Statements[1].(ast.AnalyzedExpressionStatement).Expression.(ast.AnalyzedAssignExpression).Operator == pAst.PlusAssignOperatorKind && variants[len(variants)-1].(ast.AnalyzedBlockExpression).Block.Statements[3].(ast.AnalyzedWhileStatement).Body.Statements[1].(ast.AnalyzedExpressionStatement).Expression.(ast.AnalyzedAssignExpression).Rhs.(ast.AnalyzedIntLiteralExpression).Value == 1
     assert @comparison-table before-each Operator:   reversed[node.Operator], :: pAst.VIsCompare(node.Operator) && reversed[node.Operator] == VReversedCmp(node.Operator)
     assert @plus-minus-table before-each Operator:   topLevelOp, :: (node.Operator == pAst.PlusInfixOperator || node.Operator == pAst.MinusInfixOperator) && topLevelOp == VFlipPlusMinus(node.Operator)
     assert @equality-table before-each Operator:   innerOp, :: (node.Operator == pAst.EqualInfixOperator && innerOp == pAst.NotEqualInfixOperator) || (node.Operator == pAst.NotEqualInfixOperator && innerOp == pAst.EqualInfixOperator)
